@@ -21,7 +21,7 @@ META = {
                     "stim's parser is trusted"],
     "floors": {
         "quick": {"circuits_dressed": 5500, "blocks_checked": 40000, "measurement_targets_checked": 40000, "blocks_longest_is_measurement": 3000,
-                  "per_qubit_settings_used": 10000, "t2_gt_2t1": 1000},
+                  "per_qubit_settings_used": 10000, "t2_gt_2t1": 1000, "inputs_with_measurement_inside_repeat": 1500},
         "thorough": {"circuits_dressed": 55000, "blocks_checked": 400000, "measurement_targets_checked": 400000},
     },
 }
@@ -104,6 +104,11 @@ def check_case(case: Dict[str, Any], acc: Acc):
         case["_nontrivial"] = False
         return
     acc.count("circuits_dressed")
+    repeat_blocks = [ins for ins in sc if isinstance(ins, stim.CircuitRepeatBlock)]
+    if repeat_blocks:
+        acc.count("inputs_with_repeat_block")
+        if any(ins2.name in ("M", "MZ") for blk in repeat_blocks for ins2 in blk.body_copy().flattened()):
+            acc.count("inputs_with_measurement_inside_repeat")
 
     def params(q: int) -> Tuple[float, float, float]:
         name = case["index_map"].get(str(q))
